@@ -445,7 +445,7 @@ func (blockID BlockID) Equals(other BlockID) bool {
 }
 
 func (blockID BlockID) Key() string {
-	return string(blockID.Hash) + string(wire.BinaryBytes(blockID.PartsHeader))
+	return string(wire.BinaryBytes(blockID.Hash)) + string(wire.BinaryBytes(blockID.PartsHeader))
 }
 
 func (blockID BlockID) WriteSignBytes(w io.Writer, n *int, err *error) {
